@@ -89,6 +89,14 @@ Decode(m, bytes) ==
 \* bytes appended by put_X(v) where v is given as 16 big-endian bytes
 Encode(m, v16, n) == BigEndian(m, SubSeq(v16, 17 - Width(m, n), 16))
 
+\* valid UTF-8 as far as this module knows it: ASCII and two-byte characters
+RECURSIVE Utf8Known(_)
+Utf8Known(s) ==
+  IF s = <<>> THEN TRUE
+  ELSE IF s[1] < 128 THEN Utf8Known(Tail(s))
+  ELSE IF s[1] >= 194 /\ s[1] <= 223 /\ Len(s) >= 2 /\ s[2] >= 128 /\ s[2] <= 191 THEN Utf8Known(SubSeq(s, 3, Len(s)))
+  ELSE FALSE
+
 (***************************************************************************)
 (* Cursor laws.  Returns [T |-> expected/adopted next tree, V |-> laws]    *)
 (***************************************************************************)
@@ -129,7 +137,9 @@ BufStep(T, e) ==
                    \cup same]
     [] e.op \in {"copy_to_slice", "copy_to_bytes"} ->
          IF n >= 0 /\ n <= len THEN [V |-> bad(ok /\ e.res.v = Take(F, n), "copy_exact") \cup (IF ok THEN consumed(n) ELSE {})]
-         ELSE [V |-> bad(~ok, "copy_panics")]
+         \* a copying read that fails delivers nothing: nothing went through the cursor (or through
+         \* the adapters), so every node is where it was (the counterpart of failed_write_untouched)
+         ELSE [V |-> bad(~ok, "copy_panics") \cup (IF ~ok /\ T2.k # "gone" THEN TreeLaws(T, T2, "failed_read_untouched") ELSE {})]
     [] e.op = "try_copy_to_slice" ->
          IF n >= 0 /\ n <= len THEN [V |-> bad(ok /\ e.res.k = "ok" /\ e.res.v = Take(F, n), "copy_exact") \cup (IF ok THEN consumed(n) ELSE {})]
          ELSE [V |-> bad(ok /\ e.res.k = "err" /\ e.res.req = n /\ e.res.avail = len, "copy_err") \cup same]
@@ -144,13 +154,20 @@ BufStep(T, e) ==
                         \cup (IF ok /\ (try => e.res.k = "ok") /\ T2 # Consume(T, w) THEN {<<"C10", "get_advances">>} ELSE {})]
             ELSE IF try THEN [V |-> c(ok /\ e.res.k = "err" /\ e.res.req = w /\ e.res.avail = len, "try_err_exact")
                                     \cup (IF T2 # T THEN {<<"C10", "try_err_untouched">>} ELSE {})]
-            ELSE [V |-> c(~ok, "get_panics")]
+            ELSE [V |-> c(~ok, "get_panics") \cup (IF ~ok /\ T2.k # "gone" /\ T2 # T THEN {<<"C10", "get_panics_untouched">>} ELSE {})]
     [] e.op = "set_limit" -> [V |-> IF T2 = SetLim(T, e.path, n) THEN {} ELSE {<<"C12", "set_limit">>}]
     [] e.op = "advance_at" ->
          IF n <= Len(Flat(SubAt(T, e.path)))
          THEN [V |-> IF ok /\ T2 = AdvAt(T, e.path, n) THEN {} ELSE {<<"C12", "inner_advance">>, <<"C09", "advance_drop">>}]
          ELSE [V |-> {}]
-    [] e.op = "read" ->
+    \* Read::read_to_string: a remaining sequence that is valid UTF-8 is delivered completely, as one
+    \* text, wherever the chunk boundaries fall; for other contents the law is silent
+    [] e.op = "read" /\ e.m = "to_string" ->
+         IF Utf8Known(F)
+         THEN [V |-> (IF ok /\ e.res.flag /\ e.res.n = len /\ e.res.v = F THEN {} ELSE {<<"C12", "io_min">>})
+                     \cup (IF ok THEN TreeLaws(Consume(T, len), T2, "advance_drop") ELSE {})]
+         ELSE [V |-> {}]
+    [] e.op = "read" /\ e.m # "to_string" ->
          LET k == Min2(n, len) IN
          [V |-> (IF ok /\ e.res.flag /\ e.res.n = k /\ e.res.v = Take(F, k) THEN {} ELSE {<<"C12", "io_min">>})
                 \cup (IF ok THEN TreeLaws(Consume(T, k), T2, "advance_drop") ELSE {})]
